@@ -887,8 +887,11 @@ func (e *Engine) assign(st *State, lhs, rhs []ast.Expr, tok token.Token, exit ex
 							next = append(next, e.assignOne(s, lhs[i], ast.Unparen(o.results[i]), exit)...)
 						}
 						states = next
-						// the callee returned a variable / path: what is known about its fields and about calls on
-						// it is known about the variable it is assigned to
+					}
+					// the callee returned a variable / path: what is known about it (also what a later result of the
+					// same return taught, `return svr, svr != nil`), about its fields and about calls on it is known
+					// about the variable it is assigned to
+					for i := range lhs {
 						if id, ok := lhs[i].(*ast.Ident); ok && id.Name != "_" && stablePath(o.results[i]) {
 							for _, s := range states {
 								e.transfer(s, e.Fn.Render(ast.Unparen(o.results[i])), e.Fn.Render(id), nil, id)
